@@ -422,6 +422,43 @@ InspectEv(e) ==
           \cup (IF e.wellformed /\ Len(e.edges) = Cardinality(want) /\ \A x \in want : Once(e.edges, x) THEN {}
                  ELSE {F(e, "C20", "inspect: does not list every reachable edge exactly once (or failed / did not parse)")})]
 
+(* ------------------------- script deployment (C14) ------------------------------------------ *)
+\* e.prog: the structured program the text was rendered from; e.fault_at = k > 0: the text was corrupted at command k
+\* (a class the property requires to be rejected): Err, after the commands before it were applied.
+\* e.direct: what the same API calls did to a copy of the graph (the property's own statement).
+DeployEv(e) ==
+  LET h == e.h
+      g == gs[h]
+      n == IF e.fault_at = 0 THEN Len(e.prog) ELSE e.fault_at - 1
+      r == DeployFrom([g |-> g, tab |-> <<>>, lim |-> TRUE], SubSeq(e.prog, 1, n), 1) IN
+  IF void \/ div \/ IsNull(g) \/ ~r.lim THEN Voided
+  ELSE
+  LET g2 == r.g
+      o == ObsOf(e, h)
+      good == ~e.panic /\ ~Broken(o)
+      retok == IF e.fault_at = 0 THEN e.ret = Len(e.prog) ELSE e.ret = "err"
+      dir == e.direct
+      sameasapi == good /\ ~Broken(dir) /\ Complete(o) = Complete(dir)
+      c14 == (IF ~e.panic THEN {} ELSE {F(e, "C14", "deploying the script panicked")})
+             \cup (IF e.panic \/ retok THEN {} ELSE {F(e, "C14", IF e.fault_at = 0 THEN "a well-formed script failed or returned a wrong count"
+                                                                                   ELSE "a malformed command was not rejected with Err")})
+             \cup (IF ~good \/ sameasapi THEN {} ELSE {F(e, "C14", "the script's effect differs from the same API calls")})
+      xs == IF ~good \/ (ObsMatches(o, g2) /\ LatentOk(o, g2) /\ o.nextv = g2.nextv) THEN {} ELSE {F(e, "X-script", "the script's effect differs from the exact model")}
+      c05 == IF ~good \/ (ToSet(o.alive) \ g.present) \cap issued[h] = {} THEN {}
+             ELSE {F(e, "C05", "a script variable was given a previously issued id")}
+      aliveok == good /\ AliveOk(o, g2)
+  IN
+  [Cur EXCEPT
+     !.fails = fails \cup c14 \cup xs \cup c05,
+     !.gs = [gs EXCEPT ![h] = g2],
+     !.safe = [safe EXCEPT ![h] = SafeSettle([@ EXCEPT !.unread = @ \cup Unread(g2), !.bound = @ \cup UNION g2.groups,
+                                                         !.link = IF g2.present = {} THEN {} ELSE {g2.present}],
+                                             IF good THEN ToSet(o.alive) ELSE safe[h].present)],
+     !.issued = [issued EXCEPT ![h] = @ \cup {r.tab[x] : x \in DOMAIN r.tab}],
+     !.lastobs = NewObs(e),
+     !.lastev = [op |-> e.op, ret |-> e.ret],
+     !.div = (div \/ ~aliveok)]
+
 Judge(e) ==
   CASE e.op = "reset" -> Reset(e)
     [] e.op = "end" -> End(e)
@@ -433,6 +470,7 @@ Judge(e) ==
     [] e.op \in {"xml", "dot", "debug", "display"} -> ExportEv(e)
     [] e.op = "vprint" -> VPrintEv(e)
     [] e.op = "inspect" -> InspectEv(e)
+    [] e.op = "deploy" -> DeployEv(e)
 
 TNext ==
   /\ l <= Len(Rec)
